@@ -433,7 +433,8 @@ def gen_universe(rng: random.Random, saturated: bool = False) -> World:
         if especs and rng.random() < 0.3:
             sp = rng.choice(especs)
         else:
-            sp = (rng.choice(["e", "f"]), rng.choice(SCHEMAS), tuple(rng.sample(["p", "q", "r"], rng.randint(1, 2))))
+            sp = (rng.choice(["e", "f", "x.e", "e"]), rng.choice(["public", "s", "s.x", "s"]),
+                  tuple(rng.sample(["p", "q", "r"], rng.randint(1, 2))))
         especs.append(sp)
         w.enum(sp[0], list(sp[2]), schema=sp[1])
     # references
@@ -564,6 +565,7 @@ def generate(env: Env, rseed: int, thorough: bool) -> Tuple[Dict[str, Any], List
     if not any(weights.values()):
         weights = dict(OPW)
     ops: List[List[Any]] = []
+    op: List[Any] = []
     res: Dict[str, Any] = {"violation": None}
     try:
         eng.check_state({"index": -1, "op": "initial"})
@@ -576,7 +578,8 @@ def generate(env: Env, rseed: int, thorough: bool) -> Tuple[Dict[str, Any], List
             if st != "veto":
                 ops.append(op)
     except Violation as v:
-        ops.append(op)
+        if op:
+            ops.append(op)
         res["violation"] = {"property": v.prop, "oracle": v.oracle, "signature": v.signature, "detail": v.detail}
     res["counters"] = eng.counters
     res["trace"] = eng.trace
